@@ -128,6 +128,11 @@ fn main() {
         }
         min_obs.push(json!({"name": name, "required": required, "seen": seen}));
     }
+    for (k, v) in &counters {
+        if k.starts_with("harness-error:") && *v > 0 {
+            reasons.push(format!("{k} = {v}: the harness' own oracles disagree with each other; nothing is concluded"));
+        }
+    }
     let verdict = if !violations.is_empty() {
         "violated"
     } else if !reasons.is_empty() {
